@@ -743,6 +743,10 @@ fn ep_entities(fx: &Fx, b: &[u8], t: &mut Tally) {
         Ok(_) => ok!(t, "api.Entities::from_json_file(bytes, schema2)"),
         Err(e) => err!(t, "api.Entities::from_json_file(bytes, schema2)", e),
     }
+    match api::Entities::from_json_file(b, None) {
+        Ok(_) => ok!(t, "api.Entities::from_json_file(bytes)"),
+        Err(e) => err!(t, "api.Entities::from_json_file(bytes)", e),
+    }
     match api::Entity::from_json_str(&*s, None) {
         Ok(e) => { ok!(t, "api.Entity::from_json_str"); let _ = e.to_string(); if let Err(err) = e.to_json_value() { render(err, t) } }
         Err(e) => err!(t, "api.Entity::from_json_str", e),
